@@ -172,6 +172,8 @@ def gen_structure(rng, ctx, want_bonds, max_models=4):
     chains = [str(c) for c in rng.choice(_CHAINS, size=int(rng.integers(1, 4)), replace=False)]
     per_chain = np.sort(rng.integers(0, len(chains), size=nres))
     last = {}
+    # integer columns whose extreme values sit exactly on a signed/unsigned type boundary, next to negative values
+    edge = int(rng.choice([127, 128, 129, 255, 256, 32767, 32768, 65535, 65536, 2 ** 31 - 1])) if rng.random() < 0.2 else None
     for r in range(nres):
         chain = chains[int(per_chain[r])]
         name = str(rng.choice(pool_ccd)) if rng.random() < 0.65 else str(rng.choice(_AWK_RES))
@@ -184,6 +186,8 @@ def gen_structure(rng, ctx, want_bonds, max_models=4):
             templates[name] = _template(rng, name, ctx)
         if chain not in last:
             rid, ins = int(rng.integers(-30, 60)), ""
+            if edge is not None:
+                rid = -int(rng.integers(1, 6))
         else:
             prid, pins = last[chain]
             step = int(rng.choice([1, 1, 1, 0, 2, 7]))
@@ -202,6 +206,13 @@ def gen_structure(rng, ctx, want_bonds, max_models=4):
             res_index.append(r)
         if len(atoms) > 60:
             break
+    if edge is not None and len(residues) > 1:
+        # the last residue carries the boundary value (larger than every other id, so still unique)
+        chain, _, _, name, first, cnt = residues[-1]
+        residues[-1] = (chain, edge, "", name, first, cnt)
+        for a in atoms[first:first + cnt]:
+            a["res_id"], a["ins_code"] = edge, ""
+        ctx.op("res_id_on_type_boundary")
     n = len(atoms)
     m = int(rng.integers(1, max_models + 1))
     scale = float(rng.choice([1.0, 30.0, 1000.0]))
